@@ -1,7 +1,7 @@
 """One function per property: which models TLC checks and which executions are recorded and judged."""
 import os
 
-from . import codec, gen
+from . import codec, gen, run
 from .codec import Rng, LANG_IDS, EPOCH, STEP
 from .framework import Check, Exec
 from .gen import Script, hx
@@ -1202,6 +1202,196 @@ def c18(ck):
         ck.add(Exec("inject-%d" % n, s.lines))
     ck.validate()
 
+
+# ----------------------------------------------------------------------------------------------- C14
+def hostile_strings(rng, n, S):
+    out = []
+    L_en = codec.lang("en")
+    fill = [b"a", b"zoo", b"abandon", "ñ".encode(), "가".encode(), b"\x80", b"\xff", b"\xc3", b"\xe3\x81", b"\xf0\x9f\x98", b"\xc0\xaf", b"\xed\xa0\x80"]
+    while len(out) < n:
+        kind = rng.below(16)
+        lid = rng.choice(LANG_IDS)
+        L = codec.lang(lid)
+        idx = rand_idx(rng)
+        base = codec.phrase(lid, idx, composed=rng.chance(1, 2))
+        if kind == 0:          # exact lengths around the buffer size, pure ASCII, token counts 1 / 16 / many
+            target = rng.choice([0, 1, S - 2, S - 1, S, S + 1, 2 * S, 65000])
+            tk = rng.choice([b"x" * 400, b"abandon", b"zoo", b"a"])
+            st = (tk + b" ") * (target // (len(tk) + 1) + 1)
+            out.append(st[:target])
+        elif kind == 1:        # exactly 16 tokens, total length at the boundary
+            toks = [L_en["wb"][i] for i in idx]
+            target = rng.choice([S - 2, S - 1, S, S + 1])
+            pad = target - len(b" ".join(toks))
+            toks[rng.below(16)] += b"a" * max(pad, 0)
+            out.append(b" ".join(toks))
+        elif kind == 2:        # non-ASCII only after the position where the lazy path stops looking
+            pre = (b"abandon " * 200)[:rng.choice([S - 2, S - 1, S, S + 5])]
+            out.append(pre + rng.choice(fill[3:]) + b" tail")
+        elif kind == 3:        # non-ASCII early, long
+            out.append(rng.choice(fill[3:]) + b" " + base * rng.choice([1, 2, 5]))
+        elif kind == 4:        # invalid UTF-8 spliced into a valid phrase
+            p = rng.below(len(base) + 1)
+            out.append(base[:p] + rng.choice(fill[5:]) + base[p:])
+        elif kind == 5:        # byte just before the terminator
+            out.append(base + rng.choice([b"\x80", b"\xff", b"\xc3", b"\xe3\x80", b" ", b"  ", "　".encode()]))
+        elif kind == 6:        # bit flips
+            b = bytearray(base)
+            for _ in range(1 + rng.below(4)):
+                q = rng.below(len(b))
+                b[q] ^= 1 << rng.below(8)
+                if b[q] == 0:
+                    b[q] = 1
+            out.append(bytes(b))
+        elif kind == 7:        # splice of two phrases of different languages
+            other = codec.phrase(rng.choice(LANG_IDS), rand_idx(rng))
+            out.append(base[:rng.below(len(base))] + other[rng.below(len(other)):])
+        elif kind == 8:        # 400 tokens
+            out.append(b" ".join(rng.choice([b"xxx", L["wb"][rng.below(2048)]]) for _ in range(rng.choice([17, 40, 400]))))
+        elif kind == 9:        # only separators
+            out.append(rng.choice([b" ", "　".encode(), b"\t"]) * rng.choice([1, 2, 15, 16, 17, 600]))
+        elif kind == 10:       # raw random bytes
+            out.append(bytes(x or 1 for x in rng.bytes(rng.choice([1, 7, 100, S - 1, S, 3 * S]))))
+        elif kind == 11:       # longest decomposed Korean / Japanese phrases, and beyond
+            Lk = codec.lang(rng.choice(["ko", "jp"]))
+            order = sorted(range(2048), key=lambda i: -len(Lk["wb"][i]))
+            toks = [Lk["wb"][order[rng.below(6)]] for _ in range(rng.choice([16, 16, 17, 20]))]
+            out.append(b" ".join(toks))
+        elif kind == 12:       # accents piled up on one token
+            toks = base.split(b" ")
+            toks[rng.below(len(toks))] += b"\xcc\x81" * rng.choice([1, 10, 300])
+            out.append(b" ".join(toks))
+        elif kind == 13:       # very long single token of an accent-insensitive language
+            out.append(("é" * rng.choice([100, 271, 272, 300])).encode() + b" " + base)
+        elif kind == 14:
+            out.append(base)
+        else:
+            out.append(b"")
+    return [x for x in out if b"\x00" not in x and len(x) < 66000]
+
+
+def c14(ck):
+    rng = Rng(ck.seed)
+    quick = ck.tier == "quick"
+    ck.level = "exploration"
+    S = header_strsize(ck)
+    strs = hostile_strings(rng, 1200 if quick else 40000, S)
+    for variant in ("san", "plain"):
+        for n, grp in enumerate(chunked(strs if variant == "san" else strs[::3], 24)):
+            s = Script()
+            s.add("enable", rng.choice([0, 7]))
+            s.add("env", "rand=" + hx(rand_secret(rng)))
+            s.add("create", 0, 0)
+            for st in grp:
+                r = s.string(st)
+                coin = rng.choice([0, 1, 2047, rng.below(2048)])
+                s.add("decode", r, coin, 1)
+                s.add("free", 1)
+                for lid in (rng.choice(LANG_IDS), rng.choice(["es", "fr", "jp", "ko", "en"])):
+                    s.add("decodex", r, coin, lid, 1)
+                    s.add("free", 1)
+                if rng.chance(1, 2):
+                    s.add("env", "mask=" + hx(rng.bytes(32)))
+                    s.add("crypt", 0, r)
+            ck.add(Exec("%s-strings-%d" % (variant, n), s.lines, variant=variant))
+        bufs = []
+        img = codec.image(rand_secret(rng), 5, 0)
+        for _ in range(1500 if quick else 60000):
+            k = rng.below(4)
+            if k == 0:
+                bufs.append(rng.bytes(32))
+            else:
+                b = bytearray(img if k < 3 else codec.image(rand_secret(rng), rng.below(1024), rng.below(32)))
+                for _ in range(rng.below(4)):
+                    b[rng.below(32)] ^= 1 << rng.below(8)
+                bufs.append(bytes(b))
+        for n, grp in enumerate(chunked(bufs if variant == "san" else bufs[::3], 300)):
+            s = Script()
+            s.add("enable", rng.choice([0, 7]))
+            for b in grp:
+                s.add("load", s.buf(b), 1)
+                s.add("free", 1)
+            ck.add(Exec("%s-buffers-%d" % (variant, n), s.lines, variant=variant))
+    ck.validate()
+    ck.rule = ("evaluations = API calls on hostile inputs (length classes around POLYSEED_STR_SIZE x token-count classes x byte classes incl. invalid UTF-8, "
+               "mutations and splices of valid phrases, random bytes; every 32-byte buffer class) executed under ASan+UBSan with assertions enabled and in the "
+               "release build on a guarded stack with a watchdog; each call's status, ledger and input integrity judged by TLC against the specification; "
+               "distinct_nontrivial = distinct (operation, arguments) by hash")
+    ck.assumptions += ["absence of out-of-bounds access and undefined behaviour is AddressSanitizer's/UBSan's verdict on the inputs explored; the specification supplies the status oracle and the input classes",
+                       "input strings sit directly before an inaccessible page, so reads past the terminator fault"]
+
+
+# ----------------------------------------------------------------------------------------------- C20
+def thread_script(rng, ncalls, mask):
+    """A thread's own work on its own seeds: create, encode, decode, store, load, crypt, keygen, free."""
+    s = Script()
+    for n in range(ncalls):
+        f = rng.below(8) & mask
+        s.add("env", "rand=" + hx(rng.bytes(19)), "time=%d" % (EPOCH + rng.below(1024) * STEP + 5), "mask=" + hx(rng.bytes(32)))
+        s.add("create", 0, f)
+        lid, coin = rng.choice(LANG_IDS), rng.choice(COINS_BOUNDARY)
+        s.add("encode", 0, lid, coin, 1)
+        s.add("decode", 1, coin, 1)
+        s.add("decodex", 1, coin, lid, 2)
+        s.add("store", 2, 1)
+        s.add("load", 1, 3)
+        s.add("crypt", 3, s.string(rng.choice([b"pw", "pässwörd".encode()])))
+        s.add("keygen", 3, coin, 32)
+        s.add("encode", 3, rng.choice(LANG_IDS), coin, 2)
+        for h in (0, 1, 2, 3):
+            s.add("free", h)
+        s.nstr = 2
+    return s.lines
+
+
+def c20(ck):
+    rng = Rng(ck.seed)
+    quick = ck.tier == "quick"
+    ck.model("PolyseedThreads.tla", "PolyseedThreads.cfg")
+    runs = [("mt_so", 4, 40), ("mt_tsan", 4, 25)] if quick else [("mt_so", 16, 400), ("mt_tsan", 16, 150), ("mt_so", 8, 200), ("mt_tsan", 8, 100)]
+    import json
+    tsan_reports = 0
+    for rn, (variant, nthreads, ncalls) in enumerate(runs):
+        mask = rng.choice([7, 5])
+        setup = ["inject " + rng.choice(["AAAAAAAA", "BBBBBBBB", "ABCABCAB"]), "enable %d" % mask]
+        scripts = [thread_script(rng, ncalls, mask) for _ in range(nthreads)]
+        traces, err = ck.work.record_mt(variant, "run%d-%s" % (rn, variant), setup, scripts)
+        if "ThreadSanitizer" in err:
+            tsan_reports += err.count("WARNING: ThreadSanitizer")
+            ck.notes.append(err[:1500])
+        results = run.judge(ck.work, traces, ck.pid)
+        for i, (tr, res) in enumerate(zip(traces, results)):
+            ex = Exec("run%d-%s-t%d" % (rn, variant, i), setup + scripts[i], variant=variant,
+                      note="one of %d concurrent threads; replay runs this thread's script serially" % nthreads)
+            ck.absorb(variant, [ex], tr, res, ck.pid, confirm=False)
+    # the symbols the library keeps in writable static storage must be exactly the three modelled objects
+    ck.extra["tsan_reports"] = tsan_reports
+    ck.extra["writable_static_symbols"] = writable_symbols(ck)
+    extra = [x for x in ck.extra["writable_static_symbols"] if x not in ("polyseed_deps", "reserved_features", "polyseed_mul2_table")]
+    if extra:
+        p = ck.write_replay(dict(kind="symbols", property="C20", symbols=extra))
+        ck.violations.append((p, "writable static data besides the dependency table, the feature mask and the doubling table: %s" % extra))
+    ck.assumptions += ["design level: all interleavings of the footprint model (3 threads x 2 calls); code level: schedules sampled by running, "
+                       "stores to library statics detected deterministically by write-protecting the library's data segments, races by ThreadSanitizer",
+                       "each thread's transcript is accepted by the sequential specification (serial equivalence)"]
+
+
+def writable_symbols(ck):
+    """Object symbols of the library placed in .data/.bss (what can be written at run time)."""
+    import subprocess
+    obj = ck.work.path("obj-mt_so")
+    so = os.path.join(obj, "libpolyseed_verif.so")
+    if not os.path.exists(so):
+        return []
+    r = subprocess.run(["objdump", "-t", so], stdout=subprocess.PIPE, text=True)
+    out = []
+    for line in r.stdout.splitlines():
+        parts = line.split()
+        # address flags... O <section> <size> <name>; .data.rel.ro is read-only after relocation (RELRO, -z now)
+        if len(parts) >= 5 and "O" in parts[1:-3] and parts[-3] in (".data", ".bss") and not parts[-1].startswith(("_", "completed")):
+            out.append(parts[-1])
+    return sorted(out)
+
 # ----------------------------------------------------------------------------------------------- C16
 def exit_path_scripts(rng, tag):
     """One execution per API function and exit path (success and every error status)."""
@@ -1317,4 +1507,4 @@ def c16(ck):
     ck.extra["builds"] = variants
 
 
-CHECKS = {"C01": c01, "C02": c02, "C03": c03, "C04": c04, "C05": c05, "C06": c06, "C07": c07, "C08": c08, "C10": c10, "C11": c11, "C12": c12, "C16": c16, "C09": c09, "C13": c13, "C15": c15, "C17": c17, "C18": c18, "C19": c19}
+CHECKS = {"C01": c01, "C02": c02, "C03": c03, "C04": c04, "C05": c05, "C06": c06, "C07": c07, "C08": c08, "C10": c10, "C11": c11, "C12": c12, "C16": c16, "C09": c09, "C13": c13, "C14": c14, "C15": c15, "C17": c17, "C18": c18, "C19": c19, "C20": c20}
